@@ -2,9 +2,9 @@
    Property theorems only.  [is_field o inv]: the operations of [o] form a field
    (Stdlib field_theory) and [eqb o] decides equality; every theorem holds for
    every such scalar type, every CSR structure and all vectors. *)
-From Coq Require Import ZArith List Bool QArith Field.
+From Coq Require Import ZArith List Bool QArith Field Lia.
 Import ListNotations.
-Require Import PV.Base.Ops PV.Model.Relax PV.Proofs.RelaxProofs.
+Require Import PV.Base.Ops PV.Model.Relax PV.Proofs.RelaxProofs PV.Proofs.KaczmarzProofs.
 
 (* Gauss-Seidel on row i:  a_ii x'_i + sum_{j<>i} a_ij x'_j = b_i ; a zero diagonal leaves x
    untouched; no other entry changes *)
@@ -56,6 +56,47 @@ Proof.
   exact (jac_row_equation F z0 o1 ad ml sb op dv inv ab eq le lt Fth Heq).
 Qed.
 Print Assumptions C09_jacobi_row.
+
+(* Kaczmarz (gauss_seidel_ne), any field, ANY conjugation function, row i with pairwise distinct in-range columns:
+   a_i.x' = a_i.x + (sum_j a_ij conj(a_ij)) delta  with  delta = (b_i - a_i.x) Dinv_i omega;  when Dinv_i is the
+   inverse of the squared row norm the residual of row i is multiplied by (1 - omega) (omega = 1 solves the row);
+   entries outside the row's columns do not change; a solved row is left alone *)
+Theorem C09_kaczmarz_row : forall F (o : Ops F) inv (conj : F -> F), is_field o inv ->
+  forall Aj Ax Ap b Dinv i omega x,
+  let cols := zrange (nthZ Ap i 0%Z) (nthZ Ap (i + 1) 0%Z) in
+  let cj := fun j => Z.to_nat (nthZ Aj j 0%Z) in
+  let rd := rdot F (zero o) (add o) (mul o) Aj Ax cols in
+  let nrm2 := sqs F (zero o) (add o) (mul o) conj Ax cols in
+  NoDup (map cj cols) -> (forall j, In j cols -> (cj j < length x)%nat) ->
+  let x' := gs_ne_row o conj Ap Aj Ax b Dinv x omega i in
+  rd x' = add o (rd x) (mul o nrm2 (kdelta F (zero o) (add o) (mul o) (sub o) Aj Ax Ap b Dinv i omega x)) /\
+  (mul o (nthZ Dinv i (zero o)) nrm2 = one o ->
+     sub o (nthZ b i (zero o)) (rd x') = mul o (sub o (one o) omega) (sub o (nthZ b i (zero o)) (rd x))) /\
+  (forall k, ~ In k (map cj cols) -> nth k x' (zero o) = nth k x (zero o)) /\
+  length x' = length x /\
+  (rd x = nthZ b i (zero o) -> x' = x).
+Proof.
+  intros F [z0 o1 ad sb ml dv op ab eq le lt] inv conj [Fth _] Aj Ax Ap b Dinv i omega x.
+  exact (kaczmarz_row F z0 o1 ad ml sb op dv inv ab eq le lt Fth conj Aj Ax Ap b Dinv i omega x).
+Qed.
+Print Assumptions C09_kaczmarz_row.
+(* non-vacuity: the row (1 2) with b = 5, Dinv = 1/5, omega = 1, x = 0 has distinct in-range columns; the step
+   returns x' = (1, 2), which solves the row *)
+Example C09_kaczmarz_example :
+  gs_ne_row opsQ (fun a => a) [0;2]%Z [0;1]%Z [1#1;2#1] [5#1] [1#5] [0#1;0#1] (1#1) 0%Z = [1#1;2#1]
+  /\ NoDup (map (fun j => Z.to_nat (nthZ [0;1]%Z j 0%Z)) (zrange 0 2)).
+Proof. split; [vm_compute; reflexivity|]. vm_compute. repeat constructor; cbn; intuition lia. Qed.
+(* a vector satisfying every row equation of the sweep is a fixed point of the whole Kaczmarz sweep (any order) *)
+Theorem C09_kaczmarz_fixed_point : forall F (o : Ops F) inv (conj : F -> F), is_field o inv ->
+  forall Aj Ax Ap b Dinv x start stop step omega,
+  (forall i, In i (loop_idx start stop step) ->
+     rdot F (zero o) (add o) (mul o) Aj Ax (zrange (nthZ Ap i 0%Z) (nthZ Ap (i + 1) 0%Z)) x = nthZ b i (zero o)) ->
+  gauss_seidel_ne o conj Ap Aj Ax x b start stop step Dinv omega = x.
+Proof.
+  intros F [z0 o1 ad sb ml dv op ab eq le lt] inv conj [Fth _] Aj Ax Ap b Dinv x start stop step omega.
+  exact (gauss_seidel_ne_fixed_point F z0 o1 ad ml sb op dv inv ab eq le lt Fth conj Aj Ax Ap b Dinv x start stop step omega).
+Qed.
+Print Assumptions C09_kaczmarz_fixed_point.
 
 (* the exact solution is a fixed point of a whole sweep, in any row order *)
 Theorem C09_gauss_seidel_fixed_point : forall F (o : Ops F) inv, is_field o inv ->
